@@ -15,7 +15,7 @@ LEVEL = 'partial'
 RULE = ('W: depfile texts = (a) gcc_depfile-model output for 0..6 dependency names drawn per character from weighted classes '
         '(plain, blank, hash, dollar, colon, percent/equals, backslash, other Make-special, quote, non-ASCII) with random wrap '
         'decisions, single and concatenated rules, (b) mutations of those, (c) random strings over a small alphabet, '
-        '(d) exhaustive sweep over {a : space backslash newline # $} up to length 5 (quick) / 7 (thorough), (e) corpus; '
+        '(d) exhaustive sweep over {a : space backslash newline # $} up to length 5 (quick) / 6 (thorough), (e) corpus; '
         'non-trivial = contains an escape, a wrap or an error branch; distinct by exact text.  R: real gcc/clang -MMD on '
         'generated header names; real make -pn on model-accepted depfiles; real make on generated rule graphs with stamp '
         'recipes (build; build; touch; build; delete leaf; build).  System: generated C projects configured by the real '
@@ -120,13 +120,13 @@ CORPUS_TEXT = [
 ]
 
 
-def load_corpus(rep):
+def load_corpus(rep, key='texts'):
     d = os.path.join(common.VERIF, 'corpus', 'C07')
     out = []
     if os.path.isdir(d):
         for fn in sorted(os.listdir(d)):
             if fn.endswith('.json'):
-                out.extend(json.load(open(os.path.join(d, fn))).get('texts', []))
+                out.extend(json.load(open(os.path.join(d, fn))).get(key, []))
     return out
 
 
@@ -306,6 +306,7 @@ def stage_r_mkread(rep, rng, valid, n):
     texts += [mutate(rng, t) for t in texts[: n // 2]]
     texts += ['a: b\\ c d\\#e f$$g\nb\\ c:\nd\\#e:\nf$$g:\n', "a: b'c d,e ~f g~h\nb'c:\nd,e:\n", 'a b: c\n', 'a: b \\\n c\\\n d\n',
               'a\\ b: c\n', 'a: b\\c\n', 'a: b@c d+e f&g\n', 'a:\n', 'a: b\n\n\nc: d\n']
+    texts = load_corpus(rep, 'mk_texts') + texts
     raw = common.model_batch([('depfix.mk_read', [t]) for t in texts])
     d = common.scratch('c07mk')
     bad = []
@@ -477,15 +478,416 @@ def stage_r_makesem(rep, rng, n):
     return bad
 
 
+# ----------------------------------------------------------------------------- system level: the direct oracle
+# header-name characters for which the whole loop (gcc depfile -> depfixer -> make) is expected to work
+SAFE_SPECIAL = [' ', '#', '$', '(', ')', ',', "'", '~', '@', '+', 'é', '{', '!']
+# characters with a known finding (see findings.d/C07.json): class string by character
+RISKY = {'%': 'hdr-name-percent', '=': 'hdr-name-equals', '\t': 'hdr-name-tab',
+         ':': 'hdr-name-colon', ';': 'hdr-name-semicolon', '|': 'hdr-name-bar'}
+
+
+class Proj:
+    """A generated C project: sources s<i>.c, headers with generated names, an include DAG.
+    hdr[id] = {'name', 'v', 'inc': [ids]}   (a header includes only headers with a larger id -> acyclic)
+    src[i]  = {'k', 'inc': [ids]}"""
+
+    def __init__(self, rng, rep, special=True, nsrc=None, nhdr=None):
+        self.rng, self.rep = rng, rep
+        self.special = special
+        self.hdr, self.src = {}, {}
+        self.next_h = 0
+        self.next_s = 0
+        self.files = {}          # relative path -> content, as last written
+        for _ in range(nhdr if nhdr is not None else rng.randint(3, 8)):
+            self.add_header()
+        for _ in range(nsrc if nsrc is not None else rng.randint(2, 5)):
+            self.add_source()
+
+    # -- names
+    def fresh_name(self, force=None):
+        rng = self.rng
+        while True:
+            base = ''.join(rng.choice('abcdxyz') for _ in range(rng.randint(1, 4)))
+            if force is not None:
+                base = base[:1] + force + base[1:]
+            elif self.special and rng.random() < 0.6:
+                for _ in range(rng.randint(1, 2)):
+                    i = rng.randint(1, len(base))          # never leading (a leading ~ is Make's tilde expansion)
+                    base = base[:i] + rng.choice(SAFE_SPECIAL) + base[i:]
+            nm = base + rng.choice(['.h', '.h', '.hpp', ' .h'])
+            if nm not in [h['name'] for h in self.hdr.values()]:
+                if self.rep is not None:
+                    for c in nm:
+                        if not c.isalnum() and c != '.':
+                            self.rep.count('sys:hdrchar:' + c)
+                return nm
+
+    def add_header(self, force=None):
+        i = self.next_h
+        self.next_h += 1
+        self.hdr[i] = {'name': self.fresh_name(force), 'v': self.rng.randint(1, 99), 'inc': []}
+        # earlier headers / sources may include it
+        for j, h in self.hdr.items():
+            if j < i and self.rng.random() < 0.35:
+                h['inc'].append(i)
+        return i
+
+    def add_source(self):
+        i = self.next_s
+        self.next_s += 1
+        hs = list(self.hdr)
+        self.src[i] = {'k': self.rng.randint(1, 9), 'inc': self.rng.sample(hs, self.rng.randint(0, min(3, len(hs))))}
+        return i
+
+    # -- semantics (the include-scanner oracle)
+    def hclosure(self, ids):
+        seen, todo = [], list(ids)
+        while todo:
+            x = todo.pop()
+            if x not in seen:
+                seen.append(x)
+                todo.extend(self.hdr[x]['inc'])
+        return seen
+
+    def closure_files(self, s):
+        return {'s%d.c' % s} | {self.hdr[h]['name'] for h in self.hclosure(self.src[s]['inc'])}
+
+    def hval(self, h):
+        return self.hdr[h]['v'] + sum(self.hval(c) for c in self.hdr[h]['inc'])
+
+    def expected_output(self):
+        return sum(s['k'] + sum(self.hval(h) for h in s['inc']) for s in self.src.values())
+
+    # -- text
+    def render(self):
+        out = {}
+        for i, h in self.hdr.items():
+            t = '#ifndef G%d\n#define G%d\n' % (i, i)
+            t += ''.join('#include "%s"\n' % self.hdr[c]['name'] for c in h['inc'])
+            t += '#define V%d (%d%s)\n#endif\n' % (i, h['v'], ''.join(' + V%d' % c for c in h['inc']))
+            out[h['name']] = t
+        first = min(self.src)
+        for i, s in self.src.items():
+            t = ''.join('#include "%s"\n' % self.hdr[c]['name'] for c in s['inc'])
+            t += 'int f%d(void) { return %d%s; }\n' % (i, s['k'], ''.join(' + V%d' % c for c in s['inc']))
+            if i == first:
+                t += '#include <stdio.h>\n' + ''.join('int f%d(void);\n' % j for j in self.src if j != i)
+                t += 'int main(void) { printf("%%d\\n", 0%s); return 0; }\n' % ''.join(' + f%d()' % j for j in self.src)
+            out['s%d.c' % i] = t
+        out['build.bfg'] = "executable('prog', files=[%s])\n" % ', '.join("'s%d.c'" % i for i in sorted(self.src))
+        return out
+
+    # -- edits; each returns a description
+    def edit(self):
+        rng = self.rng
+        kinds = ['mod_hdr', 'mod_hdr', 'mod_src', 'touch_hdr', 'add_hdr', 'del_hdr', 'ren_hdr', 'add_inc', 'del_inc',
+                 'add_src', 'del_src', 'ren_src']
+        for _ in range(20):
+            k = rng.choice(kinds)
+            hs, ss = list(self.hdr), list(self.src)
+            if k == 'mod_hdr' and hs:
+                h = rng.choice(hs)
+                self.hdr[h]['v'] += rng.randint(1, 5)
+                return [k, self.hdr[h]['name']]
+            if k == 'mod_src':
+                s = rng.choice(ss)
+                self.src[s]['k'] += rng.randint(1, 5)
+                return [k, 's%d.c' % s]
+            if k == 'touch_hdr' and hs:
+                h = rng.choice(hs)
+                return [k, self.hdr[h]['name']]
+            if k == 'add_hdr' and len(hs) < 10:
+                h = self.add_header()
+                if rng.random() < 0.7:
+                    s = rng.choice(ss)
+                    if h not in self.src[s]['inc']:
+                        self.src[s]['inc'].append(h)
+                return [k, self.hdr[h]['name']]
+            if k == 'del_hdr' and len(hs) > 1:
+                h = rng.choice(hs)
+                nm = self.hdr[h]['name']
+                del self.hdr[h]
+                for o in list(self.hdr.values()) + list(self.src.values()):
+                    o['inc'] = [c for c in o['inc'] if c != h]
+                return [k, nm]
+            if k == 'ren_hdr' and hs:
+                h = rng.choice(hs)
+                old = self.hdr[h]['name']
+                self.hdr[h]['name'] = self.fresh_name()
+                return [k, old, self.hdr[h]['name']]
+            if k == 'add_inc' and hs:
+                h = rng.choice(hs)
+                cands = [o for j, o in self.hdr.items() if j < h and h not in o['inc']] + \
+                        [o for o in self.src.values() if h not in o['inc']]
+                if cands:
+                    rng.choice(cands)['inc'].append(h)
+                    return [k, self.hdr[h]['name']]
+            if k == 'del_inc':
+                cands = [o for o in list(self.hdr.values()) + list(self.src.values()) if o['inc']]
+                if cands:
+                    o = rng.choice(cands)
+                    o['inc'].remove(rng.choice(o['inc']))
+                    return [k]
+            if k == 'add_src' and len(ss) < 6:
+                return [k, 's%d.c' % self.add_source()]
+            if k == 'del_src' and len(ss) > 1:
+                s = rng.choice(ss)
+                del self.src[s]
+                return [k, 's%d.c' % s]
+            if k == 'ren_src' and ss:
+                s = rng.choice(ss)
+                n = self.next_s
+                self.next_s += 1
+                self.src[n] = self.src.pop(s)
+                return [k, 's%d.c' % s, 's%d.c' % n]
+        return ['none']
+
+
+class Clock:
+    """Strictly increasing file times that stay behind the file system's own clock."""
+
+    def __init__(self, root):
+        self.root = root
+        self.last = 0
+
+    def fs_now(self):
+        p = os.path.join(self.root, '.clockprobe')
+        with open(p, 'w'):
+            pass
+        os.utime(p)
+        return os.stat(p).st_mtime_ns
+
+    def newest(self, *dirs):
+        m = self.last
+        for d in dirs:
+            for r, _, fs in os.walk(d):
+                for f in fs:
+                    try:
+                        m = max(m, os.lstat(os.path.join(r, f)).st_mtime_ns)
+                    except OSError:
+                        pass
+        return m
+
+    def stamp(self, paths, *dirs):
+        """Give `paths` distinct mtimes newer than everything under dirs, then wait (bounded) until the file
+        system clock has passed them, so that whatever is built next is strictly newer."""
+        import time
+        t = self.newest(*dirs)
+        for p in paths:
+            t += 1000
+            os.utime(p, ns=(t, t))
+        self.last = t
+        for _ in range(2000):
+            if self.fs_now() > t:
+                return
+            time.sleep(0.001)
+        raise RuntimeError('file system clock does not advance')
+
+
+WRAPPER = '''#!/bin/sh
+# logs every compiler invocation (arguments separated by the unit separator), then runs the real compiler
+( for a in "$@"; do printf '%%s\\037' "$a"; done; printf '\\n' ) >> '%(log)s'
+exec %(cc)s "$@"
+'''
+
+
+class SysRun:
+    def __init__(self, root, cc):
+        self.root = root
+        self.src = os.path.join(root, 'src')
+        self.bld = os.path.join(root, 'bld')
+        self.log = os.path.join(root, 'cc.log')
+        os.makedirs(self.src)
+        self.wrapper = os.path.join(root, 'ccwrap')
+        with open(self.wrapper, 'w') as f:
+            f.write(WRAPPER % {'log': self.log, 'cc': shutil.which(cc)})
+        os.chmod(self.wrapper, 0o755)
+        self.env = common.impl_env()
+        self.env['CC'] = self.wrapper
+        self.clock = Clock(root)
+        self.written = {}
+
+    def sync(self, proj, extra_touch=()):
+        """Write the project text; returns the set of relative names created/modified/deleted/touched."""
+        new = proj.render()
+        dirty, stamp = set(), []
+        for nm in list(self.written):
+            if nm not in new:
+                os.remove(os.path.join(self.src, nm))
+                del self.written[nm]
+                dirty.add(nm)
+        for nm, text in new.items():
+            if self.written.get(nm) != text:
+                with open(os.path.join(self.src, nm), 'w') as f:
+                    f.write(text)
+                self.written[nm] = text
+                dirty.add(nm)
+                stamp.append(os.path.join(self.src, nm))
+        for nm in extra_touch:
+            if nm in new and os.path.join(self.src, nm) not in stamp:
+                dirty.add(nm)
+                stamp.append(os.path.join(self.src, nm))
+        self.clock.stamp(stamp, self.src, self.bld if os.path.isdir(self.bld) else self.src)
+        return dirty
+
+    def configure(self):
+        p = subprocess.run(['bfg9000', 'configure', self.bld, '--backend=make', '--no-resolve-packages'], cwd=self.src,
+                           env=self.env, capture_output=True, text=True, timeout=300)
+        return p
+
+    def make(self, *args):
+        open(self.log, 'w').close()
+        p = subprocess.run(['make'] + list(args), cwd=self.bld, env=self.env, capture_output=True, text=True, timeout=600)
+        compiled, other = set(), 0
+        for line in open(self.log).read().split('\n'):
+            a = line.split('\x1f')
+            if '-MF' in a and '-c' in a:
+                compiled.add(os.path.basename(a[a.index('-c') + 1]))
+            elif line:
+                other += 1
+        return p, compiled, other
+
+    def prog_output(self):
+        p = subprocess.run([os.path.join(self.bld, 'prog')], capture_output=True, text=True, timeout=60)
+        return p.stdout.strip() if p.returncode == 0 else 'exit %d' % p.returncode
+
+
+def sys_classes(names):
+    return tuple(sorted({cls for nm in names for c, cls in RISKY.items() if c in nm}))
+
+
+def run_history(rep, seed, idx, cc, nedits, risky=None):
+    """One generated project and edit history. Returns list of failure dicts (empty = the property held)."""
+    rng = random.Random('%s-sys-%d' % (seed, idx))
+    root = common.scratch('c07sys')
+    fails = []
+    trace = []
+    try:
+        run_ = SysRun(root, cc)
+        if risky is None:
+            proj = Proj(rng, rep)
+        else:
+            proj = Proj(rng, None, special=False, nsrc=2, nhdr=2)
+            h = proj.add_header(force=risky)
+            proj.src[min(proj.src)]['inc'].append(h)
+        allnames = set(h['name'] for h in proj.hdr.values())
+        run_.sync(proj)
+        p = run_.configure()
+        if p.returncode != 0:
+            return [{'step': 'configure', 'what': 'configure failed', 'detail': (p.stdout + p.stderr)[-800:],
+                     'classes': sys_classes(allnames), 'trace': []}]
+        listed = {}
+
+        def check_build(step, dirty, expect_all=False):
+            cur = {'s%d.c' % s: proj.closure_files(s) for s in proj.src}
+            predicted = {s for s in cur if expect_all or s not in listed or (listed[s] & dirty)}
+            p, compiled, _ = run_.make()
+            ok = True
+            if p.returncode != 0:
+                fails.append({'step': step, 'what': 'make failed', 'detail': p.stderr[-600:]})
+                return False
+            if compiled != predicted:
+                fails.append({'step': step, 'what': 'recompiled set differs from the include-graph prediction',
+                              'compiled': sorted(compiled), 'predicted': sorted(predicted), 'dirty': sorted(dirty)})
+                ok = False
+            for s in list(listed):
+                if s not in cur:
+                    del listed[s]
+            for s in compiled | predicted:
+                if s in cur:
+                    listed[s] = cur[s]
+            out = run_.prog_output()
+            if out != str(proj.expected_output()):
+                fails.append({'step': step, 'what': 'program output is stale or wrong', 'got': out,
+                              'expected': proj.expected_output()})
+                ok = False
+            p, compiled, other = run_.make()
+            if p.returncode != 0 or compiled or other:
+                fails.append({'step': step, 'what': 'second make is not a no-op', 'rc': p.returncode,
+                              'compiled': sorted(compiled), 'other_invocations': other, 'detail': p.stderr[-400:]})
+                ok = False
+            rep.case('sys:%s:%d:%s' % (seed, idx, step), True)
+            return ok
+
+        for e in range(nedits if check_build('initial', set()) else 0):
+            if risky is None:
+                ed = proj.edit()
+            else:               # fixed scenario: touch the risky header, then stop including it and delete it
+                hid = max(proj.hdr)
+                if e == 0:
+                    ed = ['touch_hdr', proj.hdr[hid]['name']]
+                elif e == 1:
+                    nm = proj.hdr[hid]['name']
+                    del proj.hdr[hid]
+                    for o in list(proj.hdr.values()) + list(proj.src.values()):
+                        o['inc'] = [c for c in o['inc'] if c != hid]
+                    ed = ['del_hdr', nm]
+                else:
+                    break
+            trace.append(ed)
+            rep.count('sys:edit:' + ed[0])
+            allnames |= set(h['name'] for h in proj.hdr.values())
+            dirty = run_.sync(proj, extra_touch=[ed[1]] if ed[0] == 'touch_hdr' else ())
+            if not check_build('edit %d %r' % (e, ed), dirty):
+                break
+        if not fails:
+            # clean removes every product (objects, depfiles, program); the next build recreates all of them
+            p, _, _ = run_.make('clean')
+            mine = {'prog'} | {'s%d.c.o' % i for i in proj.src} | {'s%d.o' % i for i in proj.src} | \
+                   {'s%d.o.d' % i for i in proj.src}        # products of the CURRENT sources (a renamed source's old object is not one)
+            left = [f for r, _, fs in os.walk(run_.bld) for f in fs if f in mine]
+            if p.returncode != 0 or left:
+                fails.append({'step': 'clean', 'what': 'clean failed or left products behind', 'left': left,
+                              'detail': p.stderr[-300:]})
+            else:
+                check_build('rebuild after clean', set(), expect_all=True)
+        for f in fails:
+            f['classes'] = sys_classes(allnames)
+            f['trace'] = trace
+        return fails
+    finally:
+        shutil.rmtree(root, ignore_errors=True)
+
+
+def stage_system(rep, nhist, nedits, risky_chars):
+    nfail = 0
+    ccs = [c for c in ('gcc', 'clang') if shutil.which(c)]
+    jobs = [(i, ccs[i % len(ccs)], nedits, None) for i in range(nhist)] + \
+           [(1000 + ord(c), 'gcc', 2, c) for c in risky_chars]
+    for idx, cc, ne, risky in jobs:
+        fails = run_history(rep, rep.seed, idx, cc, ne, risky)
+        rep.traces += 1
+        rep.count('sys:history:%s%s' % (cc, ':risky' if risky else ''))
+        for f in fails[:1]:
+            nfail += 1
+            rep.fail('system: %s at %s (history %d, %s): %s' % (f.get('what', f['step']), f['step'], idx, cc,
+                                                               {k: v for k, v in f.items() if k not in ('trace', 'classes')}),
+                     {'kind': 'system', 'hist_index': idx, 'cc': cc, 'nedits': ne, 'risky': risky, 'failure': f},
+                     classes=f['classes'])
+    rep.stage('system', histories=len(jobs), failing=nfail)
+    return nfail
+
+
+def load_local_findings(rep):
+    """known_findings.json is merged by the coordinator from findings.d; honour this property's own fragment even
+    before that merge (same entries, so nothing changes afterwards)."""
+    p = os.path.join(common.VERIF, 'findings.d', 'C07.json')
+    if os.path.exists(p):
+        have = {k['id'] for k in rep.known}
+        rep.known += [k for k in json.load(open(p)) if k.get('status') == 'open' and k['id'] not in have]
+
+
 def run(rep):
     rng = random.Random(rep.seed)
     thorough = rep.tier == 'thorough'
     rep.proof_stage(coqchk=thorough)
     n = 1500 if thorough else 300
-    dis, valid = stage_w_depfix(rep, rng, n, 7 if thorough else 5)
+    dis, valid = stage_w_depfix(rep, rng, n, 6 if thorough else 5)
     stage_r_cc(rep, rng, 60 if thorough else 12)
     stage_r_mkread(rep, rng, valid, 400 if thorough else 80)
     stage_r_makesem(rep, rng, 300 if thorough else 40)
+    load_local_findings(rep)
+    stage_system(rep, 10 if thorough else 2, 30 if thorough else 5, list(RISKY) if thorough else ['%', ':'])
     if dis:
         i, call, iv, mv = dis[0]
         rep.fail('W:%s - model and implementation disagree (%d cases), e.g. %r: impl %r, model %r' % (
